@@ -8,3 +8,4 @@ PROPS = {
 PROPS['C16'] = ('sched_family', 'c16')
 PROPS['C17'] = ('sched_family', 'c17')
 PROPS['C05'] = ('sched_family', 'c05')
+PROPS['C19'] = ('sched_family', 'c19')
